@@ -154,9 +154,15 @@ func ingUnit(vc string, u ingU) []byte {
 	var h []byte
 	if vc == "hevc" {
 		ts := ingHevcType[u.K]
+		if len(ts) == 0 {
+			return nil // not a kind of the scenarios (bytes that came out of lal are being looked at): equal to nothing
+		}
 		h = []byte{byte(ts[u.Id%len(ts)] << 1), 1}
 	} else {
 		hs := ingAvcHdr[u.K]
+		if len(hs) == 0 {
+			return nil
+		}
 		h = []byte{hs[u.Id%len(hs)]}
 	}
 	n := u.N - len(h)
